@@ -20,6 +20,7 @@ type subCfg struct {
 	P0, CD, Deposit int
 	Adversary       bool
 	Hon             string
+	Ballast         bool // L carries another, idle sub-channel from the start (S is the second locked sub-allocation)
 }
 
 type subReplay struct {
@@ -33,6 +34,9 @@ type subRun struct {
 	cfg   subCfg
 	par   map[string]*client.Channel // L per party
 	sub   map[string]*client.Channel // S per party
+	bal   map[string]*client.Channel // the ballast sub-channel per party (if any)
+	pvOff int                        // real version of L = model version + pvOff (the ballast's funding update comes first)
+	fund  int64                      // what each party put into L
 	party map[string]*Party
 	pid   channel.ID
 	sid   channel.ID
@@ -71,20 +75,39 @@ func (r *subRun) newest(who string, id channel.ID) *channel.State {
 	return st
 }
 
-// own returns what who owns according to the newest states enabled at it: its balance in L plus, if L has S locked, its balance in S.
-func (r *subRun) own(who string) (total int64, pv, sv int) {
+// lastAgreed returns the newest state of channel id that carries both signatures at either client ("the last state both signed").
+func (r *subRun) lastAgreed(id channel.ID) *channel.State {
+	a, b := r.newest("A", id), r.newest("B", id)
+	if a == nil || (b != nil && b.Version > a.Version) {
+		return b
+	}
+	return a
+}
+
+func (r *subRun) worth(who string, ps *channel.State, subState func(channel.ID) *channel.State) (total int64, pv, sv int) {
 	idx := 0
 	if who == "B" {
 		idx = 1
 	}
-	ps := r.newest(who, r.pid)
-	total, pv, sv = ps.Balances[0][idx].Int64(), int(ps.Version), -1
-	if len(ps.Locked) > 0 {
-		ss := r.newest(who, r.sid)
+	total, pv, sv = ps.Balances[0][idx].Int64(), int(ps.Version)-r.pvOff, -1
+	for _, la := range ps.Locked {
+		ss := subState(la.ID)
 		total += ss.Balances[0][idx].Int64()
-		sv = int(ss.Version)
+		if la.ID == r.sid {
+			sv = int(ss.Version)
+		}
 	}
 	return
+}
+
+// own returns what who owns according to the last states both signed: its balance in L plus, if L has S locked, its balance in S.
+func (r *subRun) own(who string) (total int64, pv, sv int) {
+	return r.worth(who, r.lastAgreed(r.pid), r.lastAgreed)
+}
+
+// ownAt is the same according to the newest states enabled at who itself (what an honest party defends against an adversary).
+func (r *subRun) ownAt(who string) (total int64, pv, sv int) {
+	return r.worth(who, r.newest(who, r.pid), func(id channel.ID) *channel.State { return r.newest(who, id) })
 }
 
 // update runs a complete update of ch proposed by p: proposal, answer by the peer's handler, response.
@@ -172,9 +195,16 @@ func runSubSettleBehaviour(t *testing.T, res *drv.Result, cfg subCfg, steps []wS
 			for _, c := range r.sub {
 				_ = c.Close()
 			}
+			for _, c := range r.bal {
+				_ = c.Close()
+			}
 			w.Quiesce()
 		}()
-		chA, chB, err := w.OpenLedgerChannel(w.P[0], w.P[1], uint64(cfg.CD)*uint64(tick/time.Second), int64(cfg.P0), int64(cfg.P0))
+		r.fund = int64(cfg.P0)
+		if cfg.Ballast {
+			r.fund++
+		}
+		chA, chB, err := w.OpenLedgerChannel(w.P[0], w.P[1], uint64(cfg.CD)*uint64(tick/time.Second), r.fund, r.fund)
 		if err != nil {
 			viol("monitor", "open", "channel opening failed: "+err.Error(), 0)
 			return
@@ -186,6 +216,53 @@ func runSubSettleBehaviour(t *testing.T, res *drv.Result, cfg subCfg, steps []wS
 		go func() { _ = chA.Watch(w.P[0]) }()
 		go func() { _ = chB.Watch(w.P[1]) }()
 		w.Quiesce()
+		// openSub opens a sub-channel of L (1 + 1) with the real protocol; both parties watch it
+		openSub := func() (map[string]*client.Channel, string) {
+			sprop, err := client.NewSubChannelProposal(r.pid, uint64(cfg.CD)*uint64(tick/time.Second), w.Alloc(1, 1))
+			if err != nil {
+				return nil, err.Error()
+			}
+			type cres struct {
+				ch  *client.Channel
+				err error
+			}
+			ra, rb := make(chan cres, 1), make(chan cres, 1)
+			go func() { ch, err := w.P[0].C.ProposeChannel(ctx, sprop); ra <- cres{ch, err} }()
+			w.Quiesce()
+			pp := w.P[1].TakeProposal()
+			if pp == nil {
+				return nil, "the sub-channel proposal did not reach B's handler"
+			}
+			go func() {
+				ch, err := pp.Resp.Accept(ctx, pp.Prop.(*client.SubChannelProposalMsg).Accept(client.WithRandomNonce()))
+				rb <- cres{ch, err}
+			}()
+			w.Quiesce()
+			var xa, xb cres
+			select {
+			case xa = <-ra:
+			default:
+			}
+			select {
+			case xb = <-rb:
+			default:
+			}
+			if xa.ch == nil || xb.ch == nil {
+				return nil, fmt.Sprintf("honest sub-channel opening failed: proposer %v, proposee %v", xa.err, xb.err)
+			}
+			go func() { _ = xa.ch.Watch(w.P[0]) }()
+			go func() { _ = xb.ch.Watch(w.P[1]) }()
+			w.Quiesce()
+			return map[string]*client.Channel{"A": xa.ch, "B": xb.ch}, ""
+		}
+		if cfg.Ballast {
+			bal, why := openSub()
+			if bal == nil {
+				viol("monitor", "opensub-fails", "ballast sub-channel: "+why, 0)
+				return
+			}
+			r.bal, r.pvOff = bal, 1
+		}
 		total := int64(2 * InitialDeposit)
 		var holdDone chan error
 		start := time.Now()
@@ -211,45 +288,12 @@ func runSubSettleBehaviour(t *testing.T, res *drv.Result, cfg subCfg, steps []wS
 					return
 				}
 			case "OpenSub":
-				sprop, err := client.NewSubChannelProposal(r.pid, uint64(cfg.CD)*uint64(tick/time.Second), w.Alloc(1, 1))
-				if err != nil {
-					viol("conformance", "opensub", err.Error(), k+1)
+				sub, why := openSub()
+				if sub == nil {
+					viol("monitor", "opensub-fails", a.Label+": "+why, k+1)
 					return
 				}
-				type cres struct {
-					ch  *client.Channel
-					err error
-				}
-				ra, rb := make(chan cres, 1), make(chan cres, 1)
-				go func() { ch, err := w.P[0].C.ProposeChannel(ctx, sprop); ra <- cres{ch, err} }()
-				w.Quiesce()
-				pp := w.P[1].TakeProposal()
-				if pp == nil {
-					viol("conformance", "opensub", "the sub-channel proposal did not reach B's handler", k+1)
-					return
-				}
-				go func() {
-					ch, err := pp.Resp.Accept(ctx, pp.Prop.(*client.SubChannelProposalMsg).Accept(client.WithRandomNonce()))
-					rb <- cres{ch, err}
-				}()
-				w.Quiesce()
-				var xa, xb cres
-				select {
-				case xa = <-ra:
-				default:
-				}
-				select {
-				case xb = <-rb:
-				default:
-				}
-				if xa.ch == nil || xb.ch == nil {
-					viol("monitor", "opensub-fails", fmt.Sprintf("%s: honest sub-channel opening failed: proposer %v, proposee %v", a.Label, xa.err, xb.err), k+1)
-					return
-				}
-				r.sub, r.sid = map[string]*client.Channel{"A": xa.ch, "B": xb.ch}, xa.ch.ID()
-				go func() { _ = xa.ch.Watch(w.P[0]) }()
-				go func() { _ = xb.ch.Watch(w.P[1]) }()
-				w.Quiesce()
+				r.sub, r.sid = sub, sub["A"].ID()
 			case "HoldS":
 				holdDone = r.start(r.sub, a.Args[0].(string), 1, false)
 				w.Quiesce()
@@ -264,15 +308,13 @@ func runSubSettleBehaviour(t *testing.T, res *drv.Result, cfg subCfg, steps []wS
 					viol("conformance", "answers", "no pending sub-channel update to answer", k+1)
 					return
 				}
-				select {
+				select { // (the run goes on after a deviation: what decides are the money monitors on the real ledger)
 				case err := <-holdDone:
 					if (err == nil) != acc {
 						viol("conformance", "update|AnswerS", fmt.Sprintf("%s: Update returned %v", a.Label, err), k+1)
-						return
 					}
 				default:
 					viol("conformance", "update|AnswerS", a.Label+": the held update did not complete", k+1)
-					return
 				}
 			case "SettleTimeout":
 				q := a.Args[0].(string)
@@ -315,57 +357,60 @@ func runSubSettleBehaviour(t *testing.T, res *drv.Result, cfg subCfg, steps []wS
 				_ = r.sub["A"].Close()
 				_ = r.sub["B"].Close()
 				w.Quiesce()
-			case "AdvRegister":
-				v, wv := a.Args[0].(int), a.Args[1].(int)
-				tx := r.enabledTx(adv, r.pid, v)
+			case "AdvRegister", "AdvConclude":
+				advIdx := channel.Index(0)
+				if adv == "B" {
+					advIdx = 1
+				}
+				var tx *channel.Transaction
+				wv := -2 // -2: the registered version of S
+				if a.Name == "AdvRegister" {
+					v := a.Args[0].(int)
+					wv = a.Args[1].(int)
+					tx = r.enabledTx(adv, r.pid, v+r.pvOff)
+				} else {
+					regv, _, _ := w.Ledger.Registered(r.pid)
+					tx = r.enabledTx(adv, r.pid, regv)
+				}
 				if tx == nil {
-					viol("conformance", "adv-no-tx", fmt.Sprintf("the adversary holds no fully signed version %d of the ledger channel", v), k+1)
+					viol("conformance", "adv-no-tx", "the adversary does not hold the fully signed version of the ledger channel it wants to use", k+1)
 					return
 				}
+				// one state per locked sub-allocation, in their order: S with the chosen / registered version, the ballast with its only one
 				var subs []channel.SignedState
-				if wv >= 0 {
-					stx := r.enabledTx(adv, r.sid, wv)
-					if stx == nil {
-						viol("conformance", "adv-no-tx", fmt.Sprintf("the adversary holds no fully signed version %d of the sub-channel", wv), k+1)
-						return
-					}
-					subs = []channel.SignedState{{Params: r.sub[adv].Params(), State: stx.State, Sigs: stx.Sigs}}
-				}
-				advIdx := channel.Index(0)
-				if adv == "B" {
-					advIdx = 1
-				}
-				if err := r.party[adv].Backend.Register(context.Background(), channel.AdjudicatorReq{Params: r.par[adv].Params(), Idx: advIdx, Tx: *tx}, subs); err != nil {
-					viol("conformance", "adv-register-refused", fmt.Sprintf("the ledger refused the adversary's registration of (%d, %d): %v", v, wv, err), k+1)
-					return
-				}
-				w.Sleep(100 * time.Millisecond)
-			case "AdvConclude":
-				regv, _, _ := w.Ledger.Registered(r.pid)
-				tx := r.enabledTx(adv, r.pid, regv)
-				if tx == nil {
-					viol("conformance", "adv-no-tx", fmt.Sprintf("the adversary holds no fully signed version %d", regv), k+1)
-					return
-				}
 				subStates := channel.StateMap{}
-				if len(tx.Locked) > 0 {
-					sregv, _, _ := w.Ledger.Registered(r.sid)
-					stx := r.enabledTx(adv, r.sid, sregv)
+				for _, la := range tx.Locked {
+					ver, ch := 0, r.bal
+					if la.ID == r.sid {
+						ch = r.sub
+						ver = wv
+						if wv == -2 {
+							ver, _, _ = w.Ledger.Registered(r.sid)
+						}
+					} else if wv == -2 {
+						ver, _, _ = w.Ledger.Registered(la.ID)
+					}
+					stx := r.enabledTx(adv, la.ID, ver)
 					if stx == nil {
-						viol("conformance", "adv-no-tx", fmt.Sprintf("the adversary holds no fully signed version %d of the sub-channel", sregv), k+1)
+						viol("conformance", "adv-no-tx", fmt.Sprintf("the adversary holds no fully signed version %d of a locked sub-channel", ver), k+1)
 						return
 					}
-					subStates[r.sid] = stx.State
+					subs = append(subs, channel.SignedState{Params: ch[adv].Params(), State: stx.State, Sigs: stx.Sigs})
+					subStates[la.ID] = stx.State
 				}
-				advIdx := channel.Index(0)
-				if adv == "B" {
-					advIdx = 1
+				req := channel.AdjudicatorReq{Params: r.par[adv].Params(), Idx: advIdx, Tx: *tx}
+				if a.Name == "AdvRegister" {
+					if err := r.party[adv].Backend.Register(context.Background(), req, subs); err != nil {
+						viol("conformance", "adv-register-refused", fmt.Sprintf("the ledger refused the adversary's registration %s: %v", a.Label, err), k+1)
+						return
+					}
+				} else {
+					if err := r.party[adv].Backend.Withdraw(context.Background(), req, subStates); err != nil {
+						viol("conformance", "adv-conclude-refused", fmt.Sprintf("the ledger refused the adversary's conclusion: %v", err), k+1)
+						return
+					}
+					r.paid[adv] = true
 				}
-				if err := r.party[adv].Backend.Withdraw(context.Background(), channel.AdjudicatorReq{Params: r.par[adv].Params(), Idx: advIdx, Tx: *tx}, subStates); err != nil {
-					viol("conformance", "adv-conclude-refused", fmt.Sprintf("the ledger refused the adversary's conclusion: %v", err), k+1)
-					return
-				}
-				r.paid[adv] = true
 				w.Sleep(100 * time.Millisecond)
 			case "Tick":
 			case "SettleP":
@@ -405,9 +450,9 @@ func runSubSettleBehaviour(t *testing.T, res *drv.Result, cfg subCfg, steps []wS
 				return
 			}
 			if cfg.Adversary && r.paid[hon] {
-				own, pv, sv := r.own(hon)
+				own, pv, sv := r.ownAt(hon)
 				regv, concluded, _ := w.Ledger.Registered(r.pid)
-				want := int64(InitialDeposit-cfg.P0) + own
+				want := int64(InitialDeposit) - r.fund + own
 				if !concluded || r.acct(hon) < want {
 					viol("monitor", "honest-robbed", fmt.Sprintf("after %s: %s's newest agreed states are ledger channel v%d / sub-channel v%d, worth %d to it; the ledger concluded v%d and %s owns %d (< %d)", a.Label, hon, pv, sv, own, regv, hon, r.acct(hon), want), k+1)
 					return
@@ -416,17 +461,26 @@ func runSubSettleBehaviour(t *testing.T, res *drv.Result, cfg subCfg, steps []wS
 			if !cfg.Adversary && r.paid["A"] && r.paid["B"] {
 				oa, pva, sva := r.own("A")
 				ob, pvb, svb := r.own("B")
-				wantA, wantB := int64(InitialDeposit-cfg.P0)+oa, int64(InitialDeposit-cfg.P0)+ob
-				if pva != pvb || sva != svb || r.acct("A") != wantA || r.acct("B") != wantB || hsum != 0 {
-					viol("monitor", "honest-payout", fmt.Sprintf("both settled: last agreed states (L v%d, S v%d) / (L v%d, S v%d) are worth (%d, %d); accounts are (%d, %d), expected (%d, %d); still held %d", pva, sva, pvb, svb, oa, ob, r.acct("A"), r.acct("B"), wantA, wantB, hsum), k+1)
+				wantA, wantB := int64(InitialDeposit)-r.fund+oa, int64(InitialDeposit)-r.fund+ob
+				if r.acct("A") != wantA || r.acct("B") != wantB || hsum != 0 {
+					viol("monitor", "honest-payout", fmt.Sprintf("both settled: the last states both signed (L v%d, S v%d / seen from B: L v%d, S v%d) are worth (%d, %d); accounts are (%d, %d), expected (%d, %d); still held %d", pva, sva, pvb, svb, oa, ob, r.acct("A"), r.acct("B"), wantA, wantB, hsum), k+1)
 					return
 				}
 			}
 			// ---- conformance with the model's ledger view ----
 			ms := st.post
 			regv, _, _ := w.Ledger.Registered(r.pid)
+			if regv >= 0 {
+				regv -= r.pvOff
+			}
 			macct := ms["acct"].(tla.Rec)
-			if regv != ms["reg"].(tla.Rec)["p"].(int) || r.acct("A") != int64(macct["A"].(int)) || r.acct("B") != int64(macct["B"].(int)) {
+			adj := func(p string) int64 { // the ballast's unit comes back with the pay-out
+				if cfg.Ballast && !r.paid[p] {
+					return 1
+				}
+				return 0
+			}
+			if regv != ms["reg"].(tla.Rec)["p"].(int) || r.acct("A")+adj("A") != int64(macct["A"].(int)) || r.acct("B")+adj("B") != int64(macct["B"].(int)) {
 				res.Add("conformance_drift", 1)
 				viol("conformance", "ledger|"+a.Name, fmt.Sprintf("after %s: registered v%d, accounts (%d, %d); the specification predicts v%d, (%d, %d)", a.Label, regv, r.acct("A"), r.acct("B"), ms["reg"].(tla.Rec)["p"], macct["A"], macct["B"]), k+1)
 			}
@@ -445,7 +499,7 @@ func TestSubSettle(t *testing.T) {
 		t.Skip()
 	}
 	cfg := subCfg{P0: drv.EnvInt("VERIF_P0", 2), CD: drv.EnvInt("VERIF_CD", 1), Deposit: InitialDeposit,
-		Adversary: os.Getenv("VERIF_ADVERSARY") == "1", Hon: os.Getenv("VERIF_HON")}
+		Adversary: os.Getenv("VERIF_ADVERSARY") == "1", Hon: os.Getenv("VERIF_HON"), Ballast: os.Getenv("VERIF_BALLAST") == "1"}
 	if cfg.Hon == "" {
 		cfg.Hon = "A"
 	}
